@@ -176,6 +176,26 @@ def run_histories(chk, tier, replay_seq=None):
             f"({len(hist_fail)} failing histories of {len(leaves)})", {"kind": "history", "calls": cs})
 
 
+def alias_probe(_=None):
+    """Outside the property text (a client write is not an action C10 quantifies over), recorded
+    as a note: does formulate(parametrize=False) hand out the functools.cache'd mutable matrix?
+    Runs in a process of its own because it writes into the returned object."""
+    import sympy as sp
+
+    found = []
+    for tag in ("NRK", "NRP", "RelK", "RelP"):
+        for flag in ((False, True) if tag in kc.FLAG else (False,)):
+            M = kc.skeleton(tag, 1, flag)
+            if isinstance(M, sp.MutableDenseMatrix) and M is kc.skeleton(tag, 1, flag):
+                before = sp.srepr(kc.formulate(tag, 1, 1, flag))
+                M[0, 0] = 7
+                after = kc.formulate(tag, 1, 1, flag)
+                if sp.srepr(after) != before:
+                    found.append(f"{kc.CLS[tag]}({kc.FLAG.get(tag, 'flag')}={flag}): after M = formulate(n_channels=1, n_poles=1, parametrize=False); "
+                                 f"M[0,0] = 7, formulate(n_channels=1, n_poles=1) returns {after}")
+    return found
+
+
 def same_result(a, b):
     rel = lambda c: c["cls"] in ("RelK", "RelP")  # noqa: E731
     key = lambda c: (c["cls"], c["n"], c["flag"] if rel(c) else False, (c["np"], (c["X"], c["L"], c["d"]) if rel(c) else 0) if c["par"] else None)  # noqa: E731
@@ -440,6 +460,12 @@ def run(chk, replay=None):
 
     if hist_future is not None:
         hist_future.result()
+    if not replay:
+        with ProcessPoolExecutor(max_workers=1, mp_context=mp.get_context("fork")) as ex:
+            aliased = ex.submit(alias_probe).result()
+        if aliased:
+            chk.note("finding outside the property text, signature 'formulate(parametrize=False):returns-cached-mutable-matrix': the returned "
+                     "MutableDenseMatrix is the functools.cache'd object itself, a client write changes every later result: " + " | ".join(aliased))
     if ref_future is not None:
         res = ref_future.result()
         chk.add_tlc("reference_exhaustive", res)
